@@ -52,10 +52,10 @@ func runC15(c *Ctx) {
 		put := p.Func(stPkg + ":PutSyncTree")
 		cts := calleeMethod("commonspace/spacestorage", "CreateTreeStorage")
 		g := GErrNil("checkTreeDeleted()==nil", CalleeFn(checkDel))
-		c.RequireGate("C15.1-tombstone-gate", put, g, CallSinks(put, cts, false), "SpaceStorage.CreateTreeStorage")
+		c.RequireGate("C15.1-tombstone-gate", put, g, CallSinksX(put, cts, false), "SpaceStorage.CreateTreeStorage")
 		getTree := p.Func(stPkg + ":(treeRemoteGetter).getTree")
 		loop := p.Func(stPkg + ":(treeRemoteGetter).treeRequestLoop")
-		c.RequireGate("C15.1-tombstone-gate", getTree, g, CallSinks(getTree, CalleeFn(loop), false), "remote fetch of a missing tree")
+		c.RequireGate("C15.1-tombstone-gate", getTree, g, CallSinksX(getTree, CalleeFn(loop), false), "remote fetch of a missing tree")
 		// checkTreeDeleted itself
 		sinks := SuccessReturns(checkDel)
 		isNF := GBool("errors.Is(err, ErrDocNotFound)==true", CalleeIs(p.PkgFunc("errors:Is")), 0, true)
@@ -166,10 +166,10 @@ func runC15(c *Ctx) {
 		for _, anon := range add.AnonFuncs {
 			qs = append(qs, CallSinks(anon, CalleeFn(us), true)...)
 		}
-		c.RequireGate("C15.3-queued-guard", add, mapOkGate(p.Field(dsPkg+":objectDeletionState.deleted"), false), CallSinks(add, CalleeFn(us), false), "updateStatus(Queued)")
-		c.RequireGate("C15.3-queued-guard", add, mapOkGate(p.Field(dsPkg+":objectDeletionState.queued"), false), CallSinks(add, CalleeFn(us), false), "updateStatus(Queued)")
+		c.RequireGate("C15.3-queued-guard", add, mapOkGate(p.Field(dsPkg+":objectDeletionState.deleted"), false), CallSinksX(add, CalleeFn(us), false), "updateStatus(Queued)")
+		c.RequireGate("C15.3-queued-guard", add, mapOkGate(p.Field(dsPkg+":objectDeletionState.queued"), false), CallSinksX(add, CalleeFn(us), false), "updateStatus(Queued)")
 		run := p.Func(dsPkg + ":(*objectDeletionState).Run")
-		c.RequireGate("C15.3-queued-guard", run, statusIs("child.DeletedStatus==NotDeleted", notDeleted, true), CallSinks(run, CalleeFn(us), false), "updateStatus(Queued) for an orphan")
+		c.RequireGate("C15.3-queued-guard", run, statusIs("child.DeletedStatus==NotDeleted", notDeleted, true), CallSinksX(run, CalleeFn(us), false), "updateStatus(Queued) for an orphan")
 	}
 
 	// ---- C15.4 grow-only sets
@@ -313,17 +313,57 @@ func runC15(c *Ctx) {
 				}
 			}
 		}
+		// the late-child block extracted into a new helper: decide the status test there, and in
+		// CreateStorageTx that the helper is called (and its error returned) whenever there is a parent
+		target := cst
+		var helperCall ssa.Instruction
+		if len(queueing) == 0 {
+			for _, ci := range CallsIn(cst) {
+				h := CalleeFunc(ci.Common())
+				if h == nil || h.Blocks == nil || !IsNewFunc(h) {
+					continue
+				}
+				for _, cs := range CallSinks(h, updEntry, false) {
+					for _, w := range FieldWrites([]*ssa.Function{h}, updStatus) {
+						if w.Instr.Block() == cs.Block() || w.Instr.Block().Dominates(cs.Block()) {
+							if _, isAlloc := w.Val.(*ssa.Alloc); isAlloc {
+								queueing = append(queueing, cs)
+							}
+						}
+					}
+				}
+				if len(queueing) > 0 {
+					target, helperCall = h, ci
+					c.Fn(FuncName(h))
+					break
+				}
+			}
+		}
 		removed := map[Edge]bool{}
 		ok := len(queueing) > 0
 		for _, g := range []Gate{parentAlive, noParent} {
-			pe, sites := g.PassEdges(cst)
+			pe, sites := g.PassEdges(target)
 			if len(sites) == 0 {
-				ok = false
+				if _, outerSites := g.PassEdges(cst); target == cst || len(outerSites) == 0 {
+					ok = false
+				}
 			}
 			for e := range pe {
 				removed[e] = true
 			}
 		}
+		if helperCall != nil && ok {
+			// in the caller: with a parent, every success passes the helper
+			np, _ := noParent.PassEdges(cst)
+			rc := Reach(cst, ReachOpts{Removed: np, Cut: func(in ssa.Instruction) bool { return in == helperCall }})
+			for _, ret := range SuccessReturns(cst) {
+				if rc.Reachable(ret) {
+					ok = false
+				}
+			}
+			requirePropagates(c, "C15.5-late-child", cst, func(cc *ssa.CallCommon) bool { return CalleeFunc(cc) == target }, FuncName(target))
+		}
+		cst = target
 		// a failed second parent lookup also skips (no entry)
 		for e := range GErrNil("GetEntry(parent)==nil", getEntry).FailEdges(cst) {
 			removed[e] = true
